@@ -336,14 +336,26 @@ def lock_phase(tree: Tree, g: CFG, owner):
     body does.  Returns (done_nodes, acquire_sites, helper) where done_nodes are CFG nodes of `g`
     reached exactly when the phase has completed, acquire_sites are (func, call) pairs."""
     from .astq import fn_calls
+    from .dataflow import ReachingDefs
+
+    rd = ReachingDefs(g)
 
     def is_acq(c):
         return src(c).endswith(".lock().acquire()")
 
-    loops = [n for n in g.live if n.kind == "for" and any(is_acq(c) for s2 in n.ast.body for c in walk_local(s2) if isinstance(c, ast.Call))]
+    def acq_calls(graph, rdx):
+        """calls `<x>.acquire()` whose receiver is (an alias of) `<dep>.lock()`"""
+        out = []
+        for n, c in graph.call_nodes(lambda c: isinstance(c.func, ast.Attribute) and c.func.attr == "acquire"):
+            if is_acq(c) or rdx.canon(c.func.value, n).endswith(".lock()"):
+                out.append((n, c))
+        return out
+
+    inline = acq_calls(g, rd)
+    loops = [lp for lp in g.live if lp.kind == "for" and any(any(x is c for s2 in lp.ast.body for x in ast.walk(s2)) for _, c in inline)]
     if loops:
         done = [b for b in g.live if b.kind == "branch" and b.extra["test"] in loops and b.extra["polarity"] == "done"]
-        sites = [(owner, c) for lp in loops for s2 in lp.ast.body for c in walk_local(s2) if isinstance(c, ast.Call) and is_acq(c)]
+        sites = [(owner, c) for lp in loops for _, c in inline if any(x is c for s2 in lp.ast.body for x in ast.walk(s2))]
         return done, sites, None, loops
     if owner.cls is None:
         return [], [], None, []
